@@ -168,6 +168,37 @@ func evalC03Sub(c c03Sub, o *Obs) error {
 				}
 			}
 		}
+		// a character outside the alphabet next to a substituted one: a decoder that maps foreign characters to
+		// an out-of-range value instead of rejecting them lets that value spill into the neighbouring symbol
+		if len(valid)%3 == 0 {
+			o.Class("C03:" + c.Codec + "-foreign-neighbour-sweep")
+			for pos := start; pos+1 < len(valid); pos++ {
+				for _, f := range []byte{'b', 'i', 'o', '1', 'B', 0xff} {
+					if c.Codec == "bech32" && f == '1' {
+						continue // would move the separator
+					}
+					for _, fp := range []int{pos, pos + 1} { // the foreign character before or after the substituted one
+						sp := pos + 1
+						if fp == sp {
+							sp = pos
+						}
+						bb := []byte(valid)
+						bb[fp] = f
+						for _, ch := range []byte(b32Charset) {
+							if ch == valid[sp] {
+								continue
+							}
+							bb[sp] = ch
+							s := string(bb)
+							if c03ImplAccepts(c.Codec, s) {
+								return fmt.Errorf("%s decoder accepts %q: two substitutions (one of them the foreign character %q) at payload positions %d and %d of valid %q",
+									c.Codec, s, f, pos-start, pos+1-start, valid)
+							}
+						}
+					}
+				}
+			}
+		}
 		for pos := start; pos < len(valid); pos++ {
 			orig := valid[pos]
 			bb := []byte(valid)
